@@ -241,13 +241,27 @@ def tuple_shape(x):
     return tuple(tuple_shape(c) for c in x)
 
 
-def check_input(spec, limit, nd, query, full_tree, sh=None, dev=2, cap=20000):
+def compiled(limit, nd, query, how="subclass"):
+    """the limit / mode configured by subclassing, or assigned on a plain instance after the query
+    was compiled (the bound is the one configured on the environment when the query is applied)"""
+    if how == "subclass":
+        return env(limit, nd).compile(query)
+    from jsonpath_rfc9535 import JSONPathEnvironment
+    e = JSONPathEnvironment()
+    cq = e.compile(query)
+    e.max_recursion_depth = limit
+    e.nondeterministic = nd
+    return cq
+
+
+def check_input(spec, limit, nd, query, full_tree, sh=None, dev=2, cap=20000, how="subclass"):
     """-> list of violations"""
     doc, nest = make_doc(spec)
-    e = env(limit, nd)
-    cq = e.compile(query)
+    cq = compiled(limit, nd, query, how)
     expect_ok = nest is not None and nest <= limit
     case = {"doc": spec, "limit": limit, "nondeterministic": nd, "query": query}
+    if how != "subclass":
+        case["configured"] = how
     out = []
     if expect_ok:
         v = rt.classify(query)
@@ -311,9 +325,10 @@ def check_case(case):
             tmp = Shard(PROPERTY)
             do_sub(tmp, spec, limit, nd, query, 5)
             return tmp.violations[0] if tmp.violations else None
+        how = case.get("configured", "subclass")
         if "choices" in case:
             doc, nest = make_doc(spec)
-            cq = env(limit, nd).compile(query)
+            cq = compiled(limit, nd, query, how)
             expect_ok = nest is not None and nest <= limit
             det = None
             if expect_ok:
@@ -326,7 +341,7 @@ def check_case(case):
                     return violation("not-bounded", case, "replayable", str(e), "crash")
             vs = judge(case, r, expect_ok, det, "nd", nest)
             return vs[0] if vs else None
-        vs = check_input(spec, limit, nd, query, full_tree=(limit <= 5))
+        vs = check_input(spec, limit, nd, query, full_tree=(limit <= 5), how=how)
         for v in vs:
             if v["case"].get("choices") is None:
                 return v
@@ -350,6 +365,7 @@ def shards(tier):
         for n in (1000, 6000, 60000):
             out.append({"part": "verydeep", "limit": limit, "n": n, "tier": tier})
     out.append({"part": "dag", "tier": tier})
+    out.append({"part": "instance", "tier": tier})
     for name in CYCLES + BRANCHING:
         for limit in ((1, 2, 3, 4) if name in BRANCHING else (1, 2, 3, 4, 5, 100)):
             out.append({"part": "cycle", "name": name, "limit": limit, "tier": tier})
@@ -387,6 +403,26 @@ def run_shard(desc):
                                 continue
                             for nd in (False, True):
                                 do(spec, limit, nd, "$..*", abs(nest - limit) <= 1)
+        elif desc["part"] == "instance":
+            # limit and mode assigned on a plain environment instance AFTER compiling the query
+            for limit in (1, 2, 3, 5, 150):
+                for n in (limit - 1, limit, limit + 1):
+                    if n < 1:
+                        continue
+                    for link in ("list", "alt"):
+                        spec = {"kind": "chain", "n": n, "link": link, "bottom": "scalar", "where": "alone"}
+                        for nd in (False, True):
+                            for q in ("$..*", "$..a"):
+                                sh.nontrivial += 1
+                                for v in check_input(spec, limit, nd, q, full_tree=(limit <= full_upto), sh=sh,
+                                                     dev=1, cap=3000, how="instance-after-compile"):
+                                    sh.violation(v)
+            for name in ("self-list", "two-cycle"):
+                for limit in (2, 150):
+                    for nd in (False, True):
+                        for v in check_input({"kind": "cycle", "name": name}, limit, nd, "$..*", full_tree=(limit <= full_upto),
+                                             sh=sh, dev=1, cap=3000, how="instance-after-compile"):
+                            sh.violation(v)
         elif desc["part"] == "dag":
             for shape in ("deep", "wide", "empty"):
                 for limit in (3, 4, 5, 100):
